@@ -244,9 +244,9 @@ def main(sess):
     for name, f in (('faults', fam_faults), ('pipe', fam_pipe)):
         if not only or name in only:
             f(sess)
-    try:
-        from drivers import c17_readers
-        if not only or 'readers' in only:
-            c17_readers.run(sess)
-    except ImportError:
-        pass
+    if not only or 'readers' in only:
+        # content readers under failure: open / read errors are symbolic in the reader families of C04 — an unreadable file gives an
+        # empty value (line_count: no value, is_shebang: false, digests: empty text), never a panic, and the other columns are unaffected
+        from drivers import c04_wiring
+        c04_wiring.fam_readers(sess)
+        c04_wiring.fam_digests(sess)
